@@ -1,190 +1,8 @@
-(* C03: round trip, re-serialization, cross-target and option independence - proofs.
-   Everything is a corollary of the specification-level theorems (Spec/WireThm*.v) because every target is the ONE wire
-   specification composed with its float16 rounding rule (Spec/TargetsC03.v).  New here: enc_cast_idem (the storage->wire
-   cast is idempotent on encodings; for float16 this is pack (unpack h) = h on the image of pack, from the C14 theorems
-   F16Thm.f16_roundtrip, F16ArithThm.f16_pack_sign / f16_inf_nan / f16_rounding_rule), and "cast values hold no float16 tie". *)
-From Verif Require Import Wire WireThm WireThmRt WireThmExt WireThmValid Walker Refine TargetsC03 F16 F16Thm F16ArithThm.
+(* C03: round trip, re-serialization, cast idempotence - specification-level proofs (the leaf facts are in Spec/TargetPreThm.v). *)
+From Verif Require Import Wire WireThm WireThmRt WireThmExt WireThmValid TargetsC03 TargetPreThm F16 F16Thm F16ArithThm.
 From Coq Require Import Lia ZifyBool ZifyNat ZifyN.
 Local Open Scope nat_scope.
 Ltac Zify.zify_post_hook ::= Z.div_mod_to_equations.
-
-(* ================================================================================================================== *)
-(* float16 leaf facts                                                                                                 *)
-(* ================================================================================================================== *)
-Section F16Leaf.
-  Local Open Scope N_scope.
-
-  Lemma f16_pack_lt x : x < 4294967296 -> f16_pack x < 65536.
-  Proof.
-    intros Hx. rewrite (f16_pack_sign x Hx).
-    pose proof (pack_mag_lt (x mod 2147483648) ltac:(lia)). assert (x / 2147483648 <= 1) by lia. nia.
-  Qed.
-
-  Lemma pack_mag_nan y : y < 2147483648 -> is_nan16 (pack_mag y) = true -> pack_mag y = 32256.
-  Proof.
-    intros Hy Hn. destruct (N.lt_ge_cases y F32INF) as [Hf|Hf].
-    - destruct (f16_rounding_rule y Hf) as [Hb _]. unfold is_nan16 in Hn.
-      change 32767 with (N.ones 15) in Hn. rewrite N.land_ones in Hn. change (2 ^ 15) with 32768 in Hn.
-      apply N.ltb_lt in Hn. lia.
-    - destruct (f16_inf_nan y Hf Hy) as [Hi Hgt].
-      destruct (N.eq_dec y F32INF) as [E|E].
-      + rewrite (Hi E) in Hn. discriminate Hn.
-      + apply Hgt. lia.
-  Qed.
-
-  Lemma is_nan16_signed pm s : pm < 32768 -> s <= 1 -> is_nan16 (pm + 32768 * s) = is_nan16 pm.
-  Proof.
-    intros Hp Hs. unfold is_nan16. change 32767 with (N.ones 15). rewrite !N.land_ones. change (2 ^ 15) with 32768.
-    replace ((pm + 32768 * s) mod 32768) with pm by lia. replace (pm mod 32768) with pm by lia. reflexivity.
-  Qed.
-
-  (* the image of the pack function: a non-NaN half, or one of the two canonical NaNs *)
-  Lemma pack_image x : x < 4294967296 ->
-    is_nan16 (f16_pack x) = false \/ f16_pack x = 32256 \/ f16_pack x = 65024.
-  Proof.
-    intros Hx. rewrite (f16_pack_sign x Hx).
-    pose proof (pack_mag_lt (x mod 2147483648) ltac:(lia)) as Hp. assert (Hs : x / 2147483648 <= 1) by lia.
-    rewrite is_nan16_signed by assumption.
-    destruct (is_nan16 (pack_mag (x mod 2147483648))) eqn:En; [right|left; reflexivity].
-    rewrite (pack_mag_nan (x mod 2147483648) ltac:(lia) En).
-    assert (x / 2147483648 = 0 \/ x / 2147483648 = 1) as [-> | ->] by lia; [left|right]; reflexivity.
-  Qed.
-
-  Theorem pack_unpack_pack x : x < 4294967296 -> f16_pack (f16_unpack (f16_pack x)) = f16_pack x.
-  Proof.
-    intros Hx. destruct (pack_image x Hx) as [Hn | [-> | ->]].
-    - apply f16_roundtrip; [apply f16_pack_lt; exact Hx | exact Hn].
-    - vm_compute. reflexivity.
-    - vm_compute. reflexivity.
-  Qed.
-
-  (* an unpacked half is a fixed point of the saturation and of the 32-bit truncation, and is never a rounding tie *)
-  Definition unpack_fix_ok (h : N) : bool :=
-    (sat16 (f16_unpack h) =? f16_unpack h) && (f16_unpack h mod 2 ^ 32 =? f16_unpack h)
-    && negb (is_tie16 (N.land (f16_unpack h) 2147483647)).
-  Lemma sweep_unpack_fix : forall_below 65536 unpack_fix_ok = true.
-  Proof. vm_compute. reflexivity. Qed.
-
-  Lemma unpack_fix h : h < 65536 ->
-    sat16 (f16_unpack h) = f16_unpack h /\ f16_unpack h mod 2 ^ 32 = f16_unpack h /\
-    is_tie16 (N.land (f16_unpack h) 2147483647) = false.
-  Proof.
-    intros Hh. pose proof (forall_below_spec _ _ sweep_unpack_fix h Hh) as H. unfold unpack_fix_ok in H.
-    apply andb_prop in H as [H H3]. apply andb_prop in H as [H1 H2].
-    apply N.eqb_eq in H1. apply N.eqb_eq in H2. apply negb_true_iff in H3. auto.
-  Qed.
-
-  Lemma f16_in_unpack sat h : h < 65536 -> f16_in sat (f16_unpack h) = f16_unpack h.
-  Proof.
-    intros Hh. destruct (unpack_fix h Hh) as (H1 & H2 & _). unfold f16_in. rewrite H2. destruct sat; [exact H1 | reflexivity].
-  Qed.
-
-  Lemma sat16_lt z : z < 4294967296 -> sat16 z < 4294967296.
-  Proof.
-    intros Hz. unfold sat16. destruct (_ <? F32INF); [|exact Hz]. destruct (F32_65504 <? _); [|exact Hz].
-    change (N.shiftl 1 31) with (2 ^ 31). rewrite land_pow2. destruct (N.testbit z 31); vm_compute; reflexivity.
-  Qed.
-
-  Lemma f16_in_lt sat x : f16_in sat x < 4294967296.
-  Proof.
-    unfold f16_in. change (2 ^ 32) with 4294967296. assert (x mod 4294967296 < 4294967296) by (apply N.mod_lt; discriminate).
-    destruct sat; [apply sat16_lt; assumption | assumption].
-  Qed.
-
-  Lemma cast_f16_eq sat x : cast_f 16 sat x = f16_pack (f16_in sat x).
-  Proof. reflexivity. Qed.
-
-  Lemma cast_f16_lt sat x : cast_f 16 sat x < 65536.
-  Proof. rewrite cast_f16_eq. apply f16_pack_lt. apply f16_in_lt. Qed.
-
-  (* cast is idempotent on a float16 field: re-packing the unpacked image gives the image *)
-  Lemma cast_f16_idem sat x : cast_f 16 sat (f16_unpack (cast_f 16 sat x)) = cast_f 16 sat x.
-  Proof.
-    rewrite !cast_f16_eq. rewrite f16_in_unpack by (apply f16_pack_lt; apply f16_in_lt).
-    apply pack_unpack_pack. apply f16_in_lt.
-  Qed.
-
-  (* ---- the Python rule really is round-half-to-even: on the midpoint between the halves h and h+1 (every finite h, the
-     last one being the overflow threshold 65520) the C rule gives h+1, the Python rule the even one of the two ---- *)
-  Definition mid16 (h : N) : N :=
-    if h <? 1024 then
-      let n := 2 * h + 1 in let p := N.log2 n in N.shiftl (p + 102) 23 + N.shiftl (n - N.shiftl 1 p) (23 - p)
-    else N.shiftl h 13 + N.shiftl 112 23 + 4096.
-  Definition rne_on_tie_ok (h : N) : bool :=
-    is_tie16 (mid16 h) && (pack_mag (mid16 h) =? h + 1) && (f16_pack_rne (mid16 h) =? (if N.even h then h else h + 1))
-    && (val32 (mid16 h) * 2 =? N.shiftl (val16 h + val16 (h + 1)) 125).
-  Lemma sweep_rne_on_tie : forall_below 31744 rne_on_tie_ok = true.
-  Proof. vm_compute. reflexivity. Qed.
-
-  Theorem f16_rne_on_ties h : h < 31744 ->
-    val32 (mid16 h) * 2 = N.shiftl (val16 h + val16 (h + 1)) 125 /\        (* mid16 h is exactly half way between h and h+1 *)
-    is_tie16 (mid16 h) = true /\ pack_mag (mid16 h) = h + 1 /\ f16_pack_rne (mid16 h) = (if N.even h then h else h + 1).
-  Proof.
-    intros Hh. pose proof (forall_below_spec _ _ sweep_rne_on_tie h Hh) as H. unfold rne_on_tie_ok in H.
-    apply andb_prop in H as [H H4]. apply andb_prop in H as [H H3]. apply andb_prop in H as [H1 H2].
-    apply N.eqb_eq in H2, H3, H4. auto.
-  Qed.
-End F16Leaf.
-
-(* ================================================================================================================== *)
-(* the cast is idempotent on encodings: enc (cast v) = enc v                                                          *)
-(* ================================================================================================================== *)
-Lemma pow2_pos' w : (0 < pow2 w)%Z.
-Proof. unfold pow2. apply Z.pow_pos_nonneg; lia. Qed.
-
-Lemma pow2_N w : Z.of_N (2 ^ N.of_nat w) = pow2 w.
-Proof. unfold pow2. rewrite N2Z.inj_pow, nat_N_Z. reflexivity. Qed.
-
-Lemma to_N_lt w z : (0 <= z < pow2 w)%Z -> (Z.to_N z < 2 ^ N.of_nat w)%N.
-Proof. intros H. apply N2Z.inj_lt. rewrite Z2N.id, pow2_N; lia. Qed.
-
-Lemma of_N_lt w n : (n < 2 ^ N.of_nat w)%N -> (0 <= Z.of_N n < pow2 w)%Z.
-Proof. intros H. apply N2Z.inj_lt in H. rewrite pow2_N in H. lia. Qed.
-
-Lemma pow2_half w : 1 <= w -> pow2 w = (2 * pow2 (w - 1))%Z.
-Proof.
-  intros H. unfold pow2. replace (Z.of_nat w) with (Z.succ (Z.of_nat (w - 1))) by lia. rewrite Z.pow_succ_r by lia. reflexivity.
-Qed.
-
-Lemma read_back w n : (n < 2 ^ N.of_nat w)%N -> read_N w (bits_of_N w n) = n.
-Proof. intros H. rewrite <- (app_nil_r (bits_of_N w n)). apply read_N_bits. exact H. Qed.
-
-Lemma cast_u_lt w sat z : (cast_u w sat z < 2 ^ N.of_nat w)%N.
-Proof.
-  pose proof (pow2_pos' w) as Hp. unfold cast_u, clampZ.
-  destruct sat; apply to_N_lt; [|apply Z.mod_pos_bound; exact Hp].
-  destruct (z <? 0)%Z eqn:E1; [lia|]. destruct (pow2 w - 1 <? z)%Z eqn:E2; lia.
-Qed.
-
-Lemma cast_u_of_N w sat n : (n < 2 ^ N.of_nat w)%N -> cast_u w sat (Z.of_N n) = n.
-Proof.
-  intros H. apply of_N_lt in H. unfold cast_u, clampZ. destruct sat.
-  - destruct (Z.of_N n <? 0)%Z eqn:E1; [lia|]. destruct (pow2 w - 1 <? Z.of_N n)%Z eqn:E2; [lia|]. apply N2Z.id.
-  - rewrite Z.mod_small by lia. apply N2Z.id.
-Qed.
-
-Lemma cast_s_lt w sat z : (cast_s w sat z < 2 ^ N.of_nat w)%N.
-Proof. unfold cast_s. apply to_N_lt. apply Z.mod_pos_bound. apply pow2_pos'. Qed.
-
-Lemma cast_s_signed_of w sat n : 1 <= w -> (n < 2 ^ N.of_nat w)%N -> cast_s w sat (signed_of w n) = n.
-Proof.
-  intros Hw H. apply of_N_lt in H. pose proof (pow2_half w Hw) as Hh. pose proof (pow2_pos' (w - 1)) as Hp.
-  unfold cast_s, signed_of, clampZ.
-  destruct (Z.of_N n <? pow2 (w - 1))%Z eqn:E.
-  - assert (Hc : (if sat then (if (Z.of_N n <? - pow2 (w - 1))%Z then (- pow2 (w - 1))%Z
-                               else if (pow2 (w - 1) - 1 <? Z.of_N n)%Z then (pow2 (w - 1) - 1)%Z else Z.of_N n) else Z.of_N n)
-                  = Z.of_N n).
-    { destruct sat; [|reflexivity]. destruct (Z.of_N n <? - pow2 (w - 1))%Z eqn:E1; [lia|].
-      destruct (pow2 (w - 1) - 1 <? Z.of_N n)%Z eqn:E2; [lia|reflexivity]. }
-    rewrite Hc. rewrite Z.mod_small by lia. apply N2Z.id.
-  - set (zz := (Z.of_N n - pow2 w)%Z).
-    assert (Hc : (if sat then (if (zz <? - pow2 (w - 1))%Z then (- pow2 (w - 1))%Z
-                               else if (pow2 (w - 1) - 1 <? zz)%Z then (pow2 (w - 1) - 1)%Z else zz) else zz) = zz).
-    { destruct sat; [|reflexivity]. subst zz. destruct (Z.of_N n - pow2 w <? - pow2 (w - 1))%Z eqn:E1; [lia|].
-      destruct (pow2 (w - 1) - 1 <? Z.of_N n - pow2 w)%Z eqn:E2; [lia|reflexivity]. }
-    rewrite Hc. subst zz. replace (Z.of_N n - pow2 w)%Z with (Z.of_N n + (-1) * pow2 w)%Z by lia.
-    rewrite Z.mod_add by lia. rewrite Z.mod_small by lia. apply N2Z.id.
-Qed.
 
 Lemma enc_prim_cast_idem p v b : prim_wf p = true -> enc_prim p v = Ok b -> enc_prim p (cast_prim p v) = Ok b.
 Proof.
@@ -283,190 +101,196 @@ Proof.
   unfold ser_spec. intros t v cap b Hwf H. destruct (8 * cap <? bmax t); [discriminate|]. apply enc_cast_idem; assumption.
 Qed.
 
-(* ================================================================================================================== *)
-(* leaf-wise maps: identity where the leaf predicate says so; cast values satisfy every predicate the cast leaves do   *)
-(* ================================================================================================================== *)
-Lemma map_fields_id M A fs : Forall (fun f => forall v, A f v = true -> M f v = v) fs ->
-  forall vs, all_fields A fs vs = true -> map_fields M fs vs = vs.
-Proof.
-  induction 1 as [|f fs Hf _ IH]; intros vs Hv; [destruct vs; reflexivity|].
-  destruct vs as [|x vs]; [reflexivity|]. cbn [map_fields all_fields] in *. apply andb_prop in Hv as [H1 H2].
-  rewrite (Hf _ H1), (IH _ H2). reflexivity.
-Qed.
-
-Lemma map_sel_id M A fs : Forall (fun f => forall v, A f v = true -> M f v = v) fs ->
-  forall k x, all_sel A fs k x = true -> map_sel M fs k x = x.
-Proof.
-  induction 1 as [|f fs Hf _ IH]; intros k x Hv; [destruct k; reflexivity|].
-  destruct k; cbn [map_sel all_sel] in *; auto.
-Qed.
-
-Lemma map_list_id (M : val -> val) (A : val -> bool) : (forall v, A v = true -> M v = v) ->
-  forall l, forallb A l = true -> map M l = l.
-Proof.
-  intros H. induction l as [|x l IH]; cbn [map forallb]; intros Hv; [reflexivity|].
-  apply andb_prop in Hv as [H1 H2]. rewrite (H _ H1), (IH H2). reflexivity.
-Qed.
-
-Theorem map_prims_id F G : (forall p x, G p x = true -> F p x = x) ->
-  forall t v, all_prims G t v = true -> map_prims F t v = v.
-Proof.
-  intros HL. induction t using ty_nested_ind; intros v Hv.
-  - cbn [map_prims all_prims] in *. apply HL. exact Hv.
-  - destruct v; cbn [map_prims all_prims] in *; try reflexivity. f_equal. apply (map_list_id _ _ IHt). exact Hv.
-  - destruct v; cbn [map_prims all_prims] in *; try reflexivity. f_equal. apply (map_list_id _ _ IHt). exact Hv.
-  - destruct u, v; cbn [map_prims all_prims] in *; try reflexivity; f_equal.
-    + apply (map_sel_id _ (all_prims G)); [exact H | exact Hv].
-    + apply (map_fields_id _ (all_prims G)); [exact H | exact Hv].
-Qed.
-
-Lemma all_fields_cast C A fs : Forall (fun f => forall v, A f (C f v) = true) fs ->
-  forall vs, all_fields A fs (cast_fields C fs vs) = true.
-Proof.
-  induction 1 as [|f fs Hf _ IH]; intros vs; [destruct vs; reflexivity|].
-  destruct vs as [|x vs]; [reflexivity|]. cbn [cast_fields all_fields]. rewrite Hf, IH. reflexivity.
-Qed.
-
-Lemma all_sel_cast C A fs : Forall (fun f => forall v, A f (C f v) = true) fs ->
-  forall k x, all_sel A fs k (cast_sel C fs k x) = true.
-Proof.
-  induction 1 as [|f fs Hf _ IH]; intros k x; [destruct k; reflexivity|].
-  destruct k; cbn [cast_sel all_sel]; auto.
-Qed.
-
-Theorem cast_all_prims G : (forall p x, G p (cast_prim p x) = true) -> forall t v, all_prims G t (cast_val t v) = true.
-Proof.
-  intros HL. induction t using ty_nested_ind; intros v.
-  - cbn [cast_val all_prims]. apply HL.
-  - destruct v; cbn [cast_val all_prims]; try reflexivity; try apply HL.
-    apply forallb_forall. intros y Hy. apply in_map_iff in Hy as [x [<- _]]. apply IHt.
-  - destruct v; cbn [cast_val all_prims]; try reflexivity.
-    apply forallb_forall. intros y Hy. apply in_map_iff in Hy as [x [<- _]]. apply IHt.
-  - destruct u, v; cbn [cast_val all_prims]; try reflexivity.
-    + apply (all_sel_cast cast_val (all_prims G)). exact H.
-    + apply (all_fields_cast cast_val (all_prims G)). exact H.
-Qed.
-
-Lemma py_leaf_id p x : negb (tie_leaf p x) = true -> py_leaf p x = x.
-Proof.
-  destruct p, x; cbn [tie_leaf py_leaf]; try reflexivity. intros H.
-  destruct (is_f16 w); [|reflexivity]. cbn [andb] in H. apply negb_true_iff in H. unfold py_f16. rewrite H. reflexivity.
-Qed.
-
-Lemma tie_leaf_cast p x : negb (tie_leaf p (cast_prim p x)) = true.
-Proof.
-  unfold cast_prim. destruct (enc_prim p x) as [b|e] eqn:E.
-  - destruct p as [|w sat|w sat|w sat|w], x; cbn [enc_prim] in E; try discriminate; cbn [dec_prim tie_leaf]; try reflexivity.
-    apply Ok_inj in E. subst b. unfold is_f16. destruct (w =? 16) eqn:Ew; [|reflexivity].
-    apply Nat.eqb_eq in Ew. subst w. rewrite read_back by (change (2 ^ N.of_nat 16)%N with 65536%N; apply cast_f16_lt).
-    cbn [andb]. unfold f16_tie. rewrite f16_in_unpack by apply cast_f16_lt.
-    destruct (unpack_fix (cast_f 16 sat bits) (cast_f16_lt sat bits)) as (_ & _ & Ht). rewrite Ht. reflexivity.
-  - destruct p, x; cbn [enc_prim] in E; try discriminate; reflexivity.
-Qed.
-
-(* cast values hold no float16 tie, so the Python pre-adjustment leaves them alone *)
-Theorem cast_no_tie : forall t v, no_f16_tie t (cast_val t v) = true.
-Proof. intros t v. unfold no_f16_tie. apply cast_all_prims. exact tie_leaf_cast. Qed.
-
-Theorem py_pre_id : forall t v, no_f16_tie t v = true -> target_pre TgPy t v = v.
-Proof. intros t v H. unfold target_pre. exact (map_prims_id py_leaf _ py_leaf_id t v H). Qed.
-
 Theorem target_pre_cast : forall tg t v, target_pre tg t (cast_val t v) = cast_val t v.
 Proof. intros tg t v. destruct tg; try reflexivity. apply py_pre_id. apply cast_no_tie. Qed.
 
 (* ================================================================================================================== *)
-(* the C03 statements                                                                                                 *)
+(* decoded values are fixed points of the cast, NaN payloads of float16 fields aside                                  *)
+(* ================================================================================================================== *)
+Lemma N_of_bits_lt' l : (N_of_bits l < 2 ^ N.of_nat (length l))%N.
+Proof.
+  induction l as [|b r IH]; [cbn; lia|]. cbn [N_of_bits length]. rewrite Nat2N.inj_succ, N.pow_succ_r'.
+  destruct b; cbn [N.b2n]; lia.
+Qed.
+
+Lemma read_N_lt w bs : (read_N w bs < 2 ^ N.of_nat w)%N.
+Proof. unfold read_N. pose proof (N_of_bits_lt' (take_ze w bs)) as H. rewrite take_ze_length in H. exact H. Qed.
+
+Lemma f16_canon_fix sat h : (h < 65536)%N ->
+  negb (is_nan32 (f16_unpack h)) || (f16_unpack (f16_pack (f16_unpack h mod 2 ^ 32)) =? f16_unpack h)%N = true ->
+  f16_unpack (cast_f 16 sat (f16_unpack h)) = f16_unpack h.
+Proof.
+  intros Hr Hn. rewrite cast_f16_eq, f16_in_unpack by exact Hr.
+  destruct (is_nan32 (f16_unpack h)) eqn:En; cbn [negb orb] in Hn.
+  - apply N.eqb_eq in Hn. destruct (unpack_fix h Hr) as (_ & Hm & _). rewrite Hm in Hn. exact Hn.
+  - destruct (f16_nan_preserved h Hr) as [H1 _]. destruct (is_nan16 h) eqn:E16.
+    + destruct (H1 eq_refl) as [H2 _]. rewrite H2 in En. discriminate En.
+    + rewrite f16_roundtrip by assumption. reflexivity.
+Qed.
+
+Lemma dec_flt_cast_fix w sat n : (n < 2 ^ N.of_nat w)%N ->
+  nan_canon_leaf (PF w sat) (VFlt (if w =? 16 then f16_unpack n else n)) = true ->
+  (if w =? 16 then f16_unpack (read_N w (bits_of_N w (cast_f w sat (if w =? 16 then f16_unpack n else n))))
+   else read_N w (bits_of_N w (cast_f w sat (if w =? 16 then f16_unpack n else n)))) = (if w =? 16 then f16_unpack n else n).
+Proof.
+  intros Hr Hn. cbn [nan_canon_leaf] in Hn. unfold is_f16 in Hn. destruct (w =? 16) eqn:Ew.
+  - apply Nat.eqb_eq in Ew. subst w. change (2 ^ N.of_nat 16)%N with 65536%N in Hr. cbn [negb orb] in Hn.
+    rewrite read_back by (change (2 ^ N.of_nat 16)%N with 65536%N; apply cast_f16_lt).
+    apply f16_canon_fix; assumption.
+  - assert (Hc : cast_f w sat n = n) by (unfold cast_f; rewrite Ew; apply N.mod_small; exact Hr).
+    rewrite Hc. apply read_back. exact Hr.
+Qed.
+
+Lemma dec_prim_cast_fix p bs : prim_wf p = true -> nan_canon_leaf p (dec_prim p bs) = true ->
+  cast_prim p (dec_prim p bs) = dec_prim p bs.
+Proof.
+  intros Hwf Hn. unfold cast_prim.
+  destruct p as [|w sat|w sat|w sat|w]; cbn [dec_prim enc_prim].
+  - (* bool *) destruct (take_ze 1 bs) as [|b r]; reflexivity.
+  - pose proof (read_N_lt w bs) as Hr. rewrite cast_u_of_N by exact Hr. cbn [dec_prim]. rewrite read_back by exact Hr. reflexivity.
+  - pose proof (read_N_lt w bs) as Hr. cbn [prim_wf] in Hwf. apply andb_prop in Hwf as [Hw _]. apply Nat.leb_le in Hw.
+    rewrite cast_s_signed_of by (try lia; exact Hr). cbn [dec_prim]. rewrite read_back by exact Hr. reflexivity.
+  - pose proof (read_N_lt w bs) as Hr. cbn [dec_prim] in Hn. revert Hr Hn. generalize (read_N w bs). intros n Hr Hn.
+    cbn [dec_prim]. f_equal. apply dec_flt_cast_fix; assumption.
+  - reflexivity.
+Qed.
+
+Definition P_fx (t : ty) : Prop := wf_ty t = true -> forall bs v n, dec_body t bs = Ok (v, n) ->
+  f16_nans_canonical t v = true -> cast_val t v = v.
+
+Lemma fx_field t : P_fx t -> wf_ty t = true -> forall bs v n, dec_field t bs = Ok (v, n) -> f16_nans_canonical t v = true -> cast_val t v = v.
+Proof.
+  intros H Hwf bs v n. unfold dec_field, as_field_dec. destruct t as [p|e m|e c|u fs [x|]]; try apply (H Hwf).
+  destruct (_ <? _)%N; [discriminate|].
+  destruct (dec_body _ _) as [[v0 k]|] eqn:E; cbn [bind]; [|discriminate].
+  intros Hd. apply Ok_inj in Hd. apply pair_equal_spec in Hd. destruct Hd as [<- _]. eapply (H Hwf). exact E.
+Qed.
+
+Lemma fx_list De (C : val -> val) (A : val -> bool) : (forall bs v n, De bs = Ok (v, n) -> A v = true -> C v = v) ->
+  forall m bs vs k, dec_list De m bs = Ok (vs, k) -> forallb A vs = true -> map C vs = vs.
+Proof.
+  intros H. induction m as [|m IH]; intros bs vs k Hd Ha; cbn [dec_list] in Hd.
+  - apply Ok_inj in Hd. apply pair_equal_spec in Hd. destruct Hd as [<- _]. reflexivity.
+  - destruct (De bs) as [[v0 k0]|] eqn:E0; cbn [bind] in Hd; [|discriminate].
+    destruct (dec_list De m _) as [[vs0 k1]|] eqn:E1; cbn [bind] in Hd; [|discriminate].
+    apply Ok_inj in Hd. apply pair_equal_spec in Hd. destruct Hd as [<- _].
+    cbn [forallb] in Ha. apply andb_prop in Ha as [A1 A2]. cbn [map]. rewrite (H _ _ _ E0 A1), (IH _ _ _ E1 A2). reflexivity.
+Qed.
+
+Lemma fx_fields fs : Forall P_fx fs -> forallb wf_ty fs = true -> forall bs off vs o, dec_fields dec_field fs bs off = Ok (vs, o) ->
+  all_fields f16_nans_canonical fs vs = true -> cast_fields cast_val fs vs = vs.
+Proof.
+  induction 1 as [|f fs Hf Hfs IH]; intros Hwf bs off vs o Hd Ha; cbn [dec_fields] in Hd.
+  - apply Ok_inj in Hd. apply pair_equal_spec in Hd. destruct Hd as [<- _]. reflexivity.
+  - cbn [forallb] in Hwf. apply andb_prop in Hwf as [Hw1 Hw2].
+    destruct (dec_field f _) as [[v k]|] eqn:E0; cbn [bind] in Hd; [|discriminate].
+    destruct (dec_fields dec_field fs _ _) as [[vs0 o0]|] eqn:E1; cbn [bind] in Hd; [|discriminate].
+    apply Ok_inj in Hd. apply pair_equal_spec in Hd. destruct Hd as [<- _].
+    cbn [all_fields] in Ha. apply andb_prop in Ha as [A1 A2].
+    cbn [cast_fields]. rewrite (fx_field f Hf Hw1 _ _ _ E0 A1), (IH Hw2 _ _ _ _ E1 A2). reflexivity.
+Qed.
+
+Lemma fx_sel fs : Forall P_fx fs -> forallb wf_ty fs = true -> forall k bs v n, dec_sel dec_field fs k bs = Ok (v, n) ->
+  all_sel f16_nans_canonical fs k v = true -> cast_sel cast_val fs k v = v.
+Proof.
+  induction 1 as [|f fs Hf Hfs IH]; intros Hwf [|k] bs v n Hd Ha; cbn [dec_sel all_sel cast_sel forallb] in *; try discriminate;
+    apply andb_prop in Hwf as [Hw1 Hw2].
+  - eapply fx_field; eauto.
+  - eapply IH; eauto.
+Qed.
+
+Theorem dec_cast_fix_all : forall t, P_fx t.
+Proof.
+  induction t as [p|t m IHt|t c IHt|u fs ext H] using ty_nested_ind; intros Hwf bs v n Hd Hn; cbn [dec_body] in Hd;
+    change (as_field_dec dec_body) with dec_field in *; unfold f16_nans_canonical in *.
+  - apply Ok_inj in Hd. apply pair_equal_spec in Hd. destruct Hd as [<- _]. cbn [cast_val all_prims wf_ty] in *.
+    apply dec_prim_cast_fix; assumption.
+  - destruct (dec_list _ m bs) as [[vs k]|] eqn:E; cbn [bind] in Hd; [|discriminate].
+    apply Ok_inj in Hd. apply pair_equal_spec in Hd. destruct Hd as [<- _].
+    cbn [cast_val all_prims wf_ty] in *. f_equal.
+    exact (fx_list _ (cast_val t) (all_prims nan_canon_leaf t) (fx_field t IHt Hwf) _ _ _ _ E Hn).
+  - destruct (N.ltb_spec (N.of_nat c) (read_N (prefix_bits c) bs)) as [|Hge]; [discriminate|].
+    destruct (dec_list _ _ _) as [[vs k]|] eqn:E; cbn [bind] in Hd; [|discriminate].
+    apply Ok_inj in Hd. apply pair_equal_spec in Hd. destruct Hd as [<- _].
+    cbn [wf_ty] in Hwf. apply andb_prop in Hwf as [Hwf _].
+    cbn [cast_val all_prims] in *. f_equal.
+    exact (fx_list _ (cast_val t) (all_prims nan_canon_leaf t) (fx_field t IHt Hwf) _ _ _ _ E Hn).
+  - assert (Hwfs : forallb wf_ty fs = true).
+    { cbn [wf_ty] in Hwf. apply andb_prop in Hwf. destruct Hwf as [Hwf _]. apply andb_prop in Hwf. destruct Hwf as [Hwf _]. exact Hwf. }
+    destruct u.
+    + destruct (_ <=? _)%N; [discriminate|].
+      destruct (dec_sel _ fs _ _) as [[v0 k]|] eqn:E; cbn [bind] in Hd; [|discriminate].
+      apply Ok_inj in Hd. apply pair_equal_spec in Hd. destruct Hd as [<- _].
+      cbn [cast_val all_prims] in *. f_equal. eapply fx_sel; eauto.
+    + destruct (dec_fields _ fs bs 0) as [[vs k]|] eqn:E; cbn [bind] in Hd; [|discriminate].
+      apply Ok_inj in Hd. apply pair_equal_spec in Hd. destruct Hd as [<- _].
+      cbn [cast_val all_prims] in *. f_equal. eapply fx_fields; eauto.
+Qed.
+
+(* a decoded value whose float16 NaNs are canonical is a fixed point of the cast (and, being a cast value, holds no tie) *)
+Theorem dec_cast_fix : forall t bs v n, wf_ty t = true -> dec_body t bs = Ok (v, n) -> f16_nans_canonical t v = true ->
+  cast_val t v = v.
+Proof. intros t bs v n Hwf Hd Hn. exact (dec_cast_fix_all t Hwf bs v n Hd Hn). Qed.
+
+(* des . ser . des = des at the VALUE level, float16 NaN payload canonicalisation excluded *)
+Theorem des_ser_des_value_partial : forall t bs v k cap b, wf_ty t = true -> align t = 8 ->
+  des_spec t bs = Ok (v, k) -> f16_nans_canonical t v = true -> ser_spec t v cap = Ok b ->
+  des_spec t b = Ok (v, length b / 8).
+Proof.
+  intros t bs v k cap b Hwf Ha Hd Hn Hs.
+  pose proof (des_ser_roundtrip t v cap b [] Hwf Ha Hs) as Hr. rewrite app_nil_r in Hr. rewrite Hr.
+  unfold des_spec in Hd. destruct (dec_body t bs) as [[v0 n]|] eqn:E; cbn [bind] in Hd; [|discriminate].
+  apply Ok_inj in Hd. apply pair_equal_spec in Hd. destruct Hd as [<- _].
+  rewrite (dec_cast_fix t bs v0 n Hwf E Hn). reflexivity.
+Qed.
+
+(* ================================================================================================================== *)
+(* the C03 statements at specification level (the code-level ones are in Codec/ObsC03Thm.v)                           *)
 (* ================================================================================================================== *)
 
-(* ---------- round trip, per target ---------- *)
-Theorem target_roundtrip : forall tg o t v cap b r, wf_ty t = true -> align t = 8 ->
-  target_ser tg o t v cap = Ok b ->
-  target_des tg o t (b ++ r) = Ok (cast_val t (target_pre tg t v), length b / 8).
-Proof. intros tg o t v cap b r Hwf Ha H. unfold target_ser, target_des in *. exact (des_ser_roundtrip _ _ _ _ r Hwf Ha H). Qed.
+Theorem spec_roundtrip : forall tg t v cap b r, wf_ty t = true -> align t = 8 ->
+  spec_ser tg t v cap = Ok b -> des_spec t (b ++ r) = Ok (cast_val t (target_pre tg t v), length b / 8).
+Proof. intros tg t v cap b r Hwf Ha H. unfold spec_ser in *. exact (des_ser_roundtrip _ _ _ _ r Hwf Ha H). Qed.
 
-(* ---------- re-serialization: ser (des (ser v)) = ser v, per target ---------- *)
-Theorem target_reser : forall tg o t v cap b v' k, wf_ty t = true -> align t = 8 ->
-  target_ser tg o t v cap = Ok b -> target_des tg o t b = Ok (v', k) -> target_ser tg o t v' cap = Ok b.
+Theorem spec_reser : forall tg t v cap b, wf_ty t = true -> align t = 8 ->
+  spec_ser tg t v cap = Ok b -> spec_ser tg t (cast_val t (target_pre tg t v)) cap = Ok b.
 Proof.
-  intros tg o t v cap b v' k Hwf Ha Hs Hd.
-  pose proof (target_roundtrip tg o t v cap b [] Hwf Ha Hs) as Hr. rewrite app_nil_r in Hr. rewrite Hr in Hd.
-  apply Ok_inj in Hd. injection Hd as <- _.
-  unfold target_ser in *. rewrite target_pre_cast. apply ser_cast_idem; assumption.
+  intros tg t v cap b Hwf Ha Hs. unfold spec_ser in *. rewrite target_pre_cast. apply ser_cast_idem; assumption.
 Qed.
 
-(* ---------- decoding re-encoded decoded data: the bytes are stable from the first re-encoding on, and the value is the
-   cast of the decoded value ---------- *)
-Theorem target_des_ser_des : forall tg o t bs cap v k b, wf_ty t = true -> align t = 8 ->
-  target_des tg o t bs = Ok (v, k) -> target_ser tg o t v cap = Ok b ->
-  target_des tg o t b = Ok (cast_val t (target_pre tg t v), length b / 8) /\
-  target_ser tg o t (cast_val t (target_pre tg t v)) cap = Ok b.
+Theorem des_then_ser_ok : forall t bs v k cap, des_spec t bs = Ok (v, k) -> bmax t <= 8 * cap ->
+  exists b, ser_spec t v cap = Ok b.
 Proof.
-  intros tg o t bs cap v k b Hwf Ha _ Hs.
-  pose proof (target_roundtrip tg o t v cap b [] Hwf Ha Hs) as Hr. rewrite app_nil_r in Hr.
-  split; [exact Hr | exact (target_reser tg o t v cap b _ _ Hwf Ha Hs Hr)].
-Qed.
-
-(* a decoded value can always be re-encoded (C and C++; any buffer that passes the capacity check) *)
-Theorem des_then_ser_ok : forall o t bs v k cap, target_des TgC o t bs = Ok (v, k) -> bmax t <= 8 * cap ->
-  exists b, target_ser TgC o t v cap = Ok b.
-Proof.
-  unfold target_des, target_ser, target_pre, des_spec, ser_spec. intros o t bs v k cap H Hc.
+  unfold des_spec, ser_spec. intros t bs v k cap H Hc.
   destruct (dec_body t bs) as [[v0 n]|] eqn:E; cbn [bind] in H; [|discriminate]. apply Ok_inj in H. injection H as <- _.
   destruct (8 * cap <? bmax t) eqn:Ec; [apply Nat.ltb_lt in Ec; lia|]. exact (dec_then_enc_ok _ _ _ _ E).
 Qed.
 
+(* decoded values hold no float16 tie once their NaNs are canonical (they are cast values) - and in general: *)
+Theorem dec_no_tie : forall t bs v n, wf_ty t = true -> dec_body t bs = Ok (v, n) -> f16_nans_canonical t v = true ->
+  no_f16_tie t v = true.
+Proof. intros t bs v n Hwf Hd Hn. rewrite <- (dec_cast_fix t bs v n Hwf Hd Hn). apply cast_no_tie. Qed.
+
 (* at the VALUE level the des-ser-des chain is not the identity on arbitrary input: a float16 NaN with a payload decodes to a
    binary32 NaN that re-encodes as the canonical NaN *)
 Theorem des_ser_des_value_refuted : exists t bs v k b v' k', wf_ty t = true /\
-  des_spec t bs = Ok (v, k) /\ ser_spec t v 2 = Ok b /\ des_spec t b = Ok (v', k') /\ v' <> v.
+  des_spec t bs = Ok (v, k) /\ ser_spec t v 2 = Ok b /\ des_spec t b = Ok (v', k') /\ v' <> v /\ f16_nans_canonical t v = false.
 Proof.
   exists (TComp false [TPrim (PF 16 false)] None), (bits_of_N 16 31745), (VStruct [VFlt (f16_unpack 31745)]), 2,
          (bits_of_N 16 32256), (VStruct [VFlt (f16_unpack 32256)]), 2.
   vm_compute. repeat split; try reflexivity. discriminate.
 Qed.
 
-(* ---------- cross target ---------- *)
-Theorem cross_target_ser_c_cpp : forall o1 o2 t v cap, target_ser TgC o1 t v cap = target_ser TgCpp o2 t v cap.
-Proof. reflexivity. Qed.
-
-Theorem cross_target_des_all : forall tg1 tg2 o1 o2 t bs, target_des tg1 o1 t bs = target_des tg2 o2 t bs.
-Proof. reflexivity. Qed.
-
 Definition tie_ty : ty := TComp false [TPrim (PF 16 false)] None.
 Definition tie_val : val := VStruct [VFlt 1065357312%N].      (* 0x3F801000 = 1 + 2^-11 *)
 
-Theorem f16_tie_refuted : exists t v cap bc bp, wf_ty t = true /\
-  target_ser TgC default_options t v cap = Ok bc /\ target_ser TgPy default_options t v cap = Ok bp /\ bc <> bp.
-Proof.
-  exists tie_ty, tie_val, 2, (bits_of_N 16 15361), (bits_of_N 16 15360).
-  vm_compute. repeat split; try reflexivity. discriminate.
-Qed.
+Theorem spec_f16_tie_refuted : wf_ty tie_ty = true /\
+  spec_ser TgC tie_ty tie_val 2 = Ok (bits_of_N 16 15361) /\ spec_ser TgPy tie_ty tie_val 2 = Ok (bits_of_N 16 15360).
+Proof. vm_compute. repeat split; reflexivity. Qed.
 
-Theorem cross_target_ser_partial : forall tg1 tg2 o1 o2 t v cap, no_f16_tie t v = true ->
-  target_ser tg1 o1 t v cap = target_ser tg2 o2 t v cap.
+Theorem spec_cross_target_partial : forall tg1 tg2 t v cap, no_f16_tie t v = true -> spec_ser tg1 t v cap = spec_ser tg2 t v cap.
 Proof.
-  intros tg1 tg2 o1 o2 t v cap H. unfold target_ser.
+  intros tg1 tg2 t v cap H. unfold spec_ser.
   assert (Hp : forall tg, target_pre tg t v = v) by (intros tg; destruct tg; try reflexivity; apply py_pre_id; exact H).
   rewrite !Hp. reflexivity.
-Qed.
-
-(* what every target sends for a value decodes, in every target, to the same value; and targets agree on every value that came out
-   of a deserializer or went through a round trip (such values hold no tie) *)
-Theorem cross_target_on_cast_values : forall tg1 tg2 o1 o2 t v cap,
-  target_ser tg1 o1 t (cast_val t v) cap = target_ser tg2 o2 t (cast_val t v) cap.
-Proof. intros. apply cross_target_ser_partial. apply cast_no_tie. Qed.
-
-(* ---------- options ---------- *)
-Theorem option_indep_ser : forall tg o1 o2 t v cap, target_ser tg o1 t v cap = target_ser tg o2 t v cap.
-Proof. reflexivity. Qed.
-Theorem option_indep_des : forall tg o1 o2 t bs, target_des tg o1 t bs = target_des tg o2 t bs.
-Proof. reflexivity. Qed.
-
-(* on the code-shaped walker: any two primitive records that satisfy the laws (C `little` / `any|big` variants, C++ bitspan, Python
-   Serializer/Deserializer) give the same observable; fragment of Refine.v *)
-Theorem walker_des_prims_indep : forall P1 P2 t bits, prims_ok P1 -> prims_ok P2 -> walk_fragment t = true ->
-  length bits mod 8 = 0 -> walk_des P1 t bits = walk_des P2 t bits.
-Proof.
-  intros P1 P2 t bits H1 H2 Hf Hl. rewrite (walk_des_refines_prims P1 t bits H1 Hf Hl), (walk_des_refines_prims P2 t bits H2 Hf Hl).
-  reflexivity.
 Qed.
